@@ -1,6 +1,6 @@
 (* Model/StorageAPI.v — G for C17: the two storage backends at API level.
      storage/memory/storage.go      ReferenceStorage (CheckAndSetReference compares
-                                    r[ref.Name()] and succeeds when it is absent),
+                                    r[ref.Name()], not old.Name()),
                                     ObjectStorage, IndexStorage, ConfigStorage,
                                     ShallowStorage, ReflogStorage
      storage/filesystem + dotgit    SetRef / setRefRwfs / checkReferenceAndTruncate
@@ -38,14 +38,15 @@ Definition spec_sstep (U : universe) (s : store) (o : sop) : store * res :=
   end.
 
 (* ------------------------------------------------------------- memory *)
-(* memory.ReferenceStorage.CheckAndSetReference: tmp := r[ref.Name()];
-   if tmp != nil && tmp.Hash() != old.Hash() -> changed; else store *)
+(* memory.ReferenceStorage.CheckAndSetReference: tmp := r[ref.Name()] — the
+   name of the NEW reference, old.Name() is not looked at; tmp == nil -> not
+   found; tmp.Hash() != old.Hash() -> changed; else store *)
 Definition mem_cas (n : N) (v : refval) (ov : refval) (s : store) : store * res :=
   match fm_get n (s_refs s) with
   | Some cur =>
     if rv_hash_eqb cur ov then (st_with_refs s (fm_set n v (s_refs s)), ROk)
     else (s, RErr EChanged)
-  | None => (st_with_refs s (fm_set n v (s_refs s)), ROk)
+  | None => (s, RErr ENotFound)
   end.
 
 Definition mem_step (U : universe) (s : store) (o : sop) : store * res :=
